@@ -286,14 +286,14 @@ theorem outer_nurbs_law (r1 r2 : List (Nat × (Nat → K))) (c1 w1 c2 w2 cn cp w
     (hp : ∀ k1 k2, k1 < size r1 → k2 < size r2 → cp (k1 * size r2 + k2)
         = (c1 k1 / w1 k1 * (c2 k2 / w2 k2)) * (w1 k1 * w2 k2))
     (hw : ∀ k1 k2, k1 < size r1 → k2 < size r2 → w (k1 * size r2 + k2) = w1 k1 * w2 k2)
-    (hw1 : ∀ k, w1 k ≠ 0) (hw2 : ∀ k, w2 k ≠ 0)
+    (hw1 : ∀ k, k < size r1 → w1 k ≠ 0) (hw2 : ∀ k, k < size r2 → w2 k ≠ 0)
     (hW1 : nest w1 r1 0 ≠ 0) (hW2 : nest w2 r2 0 ≠ 0) :
     nest cn (r1 ++ r2) 0 / nest w (r1 ++ r2) 0 = nest c1 r1 0 / nest w1 r1 0 + nest c2 r2 0 / nest w2 r2 0 ∧
     nest cp (r1 ++ r2) 0 / nest w (r1 ++ r2) 0 = (nest c1 r1 0 / nest w1 r1 0) * (nest c2 r2 0 / nest w2 r2 0) := by
   have hn' : ∀ k1 k2, k1 < size r1 → k2 < size r2 → cn (k1 * size r2 + k2) = c1 k1 * w2 k2 + w1 k1 * c2 k2 := by
-    intro k1 k2 hk1 hk; rw [hn k1 k2 hk1 hk]; have := hw1 k1; have := hw2 k2; field_simp
+    intro k1 k2 hk1 hk; rw [hn k1 k2 hk1 hk]; have := hw1 k1 hk1; have := hw2 k2 hk; field_simp
   have hp' : ∀ k1 k2, k1 < size r1 → k2 < size r2 → cp (k1 * size r2 + k2) = c1 k1 * c2 k2 := by
-    intro k1 k2 hk1 hk; rw [hp k1 k2 hk1 hk]; have := hw1 k1; have := hw2 k2; field_simp
+    intro k1 k2 hk1 hk; rw [hp k1 k2 hk1 hk]; have := hw1 k1 hk1; have := hw2 k2 hk; field_simp
   have eW : nest w (r1 ++ r2) 0 = nest w1 r1 0 * nest w2 r2 0 := by
     rw [nest_two' w r1 r2 (fun k1 k2 => w1 k1 * w2 k2) hw, nest_congr (fun k1 => nest_smul _ _ _ _), nest_mul_right]
   have eN : nest cn (r1 ++ r2) 0 = nest c1 r1 0 * nest w2 r2 0 + nest w1 r1 0 * nest c2 r2 0 := by
@@ -824,6 +824,115 @@ theorem translate_nurbs_model {X : Type} (F : Func K) (off : List K) (m : Nat) (
     rw [hat k m hk (Nat.le_refl m), if_neg (Nat.lt_irrefl m)]
   rw [hnum, hden]
   field_simp
+
+
+
+/-- entries of `matApply` (`np.matmul(A, C[..., None])` squeezed) -/
+theorem matApply_getD (A : List (List K)) (m : Nat) (c : List K) (k a : Nat)
+    (hk : k < c.length / m) (ha : a < A.length) :
+    (matApply A m c).getD (k * A.length + a) 0
+      = sumTo m (fun b => (A.getD a []).getD b 0 * c.getD (k * m + b) 0) := by
+  unfold matApply
+  rw [getD_flatMap_chunks 0 (c.length / m) A.length _ (by intro I; simp) k a hk ha]
+  simp [List.getD_eq_getElem?_getD, List.getElem?_map, List.getElem?_eq_getElem ha]
+
+/-- **apply_matrix, on the model's list-level constructor** (`BSplineFunc.apply_matrix(A)`, one
+`r × m` matrix): the value at every node is `A` times the old value, for every sdim. -/
+theorem apply_matrix_model {X : Type} (F : Func K) (A : List (List K)) (m : Nat) (B : Nat → X → Info K)
+    (ys : List X) (a : Nat)
+    (hv : F.vshape = [m]) (hm : 0 < m) (hlen : F.c.length = F.npts * m) (hl : ys.length = F.dims.length)
+    (ha : a < A.length) :
+    (F.bspApplyMatrix A).toSpl.gridVal B ys a
+      = sumTo m (fun b => (A.getD a []).getD b 0 * F.toSpl.gridVal B ys b) := by
+  have hnc : F.ncomp = m := by simp [Func.ncomp, hv, Index.prod]
+  have hnc' : (F.bspApplyMatrix A).ncomp = A.length := by simp [Func.ncomp, Func.bspApplyMatrix, Index.prod]
+  have hs := size_rows B F.dims ys (List.replicate F.dims.length 0) 0 hl (by simp)
+  have hdiv : F.c.length / m = F.npts := by rw [hlen]; exact Nat.mul_div_cancel _ hm
+  show contract (F.bspApplyMatrix A).at (F.bspApplyMatrix A).ncomp a
+      (rows B 0 F.dims ys (List.replicate F.dims.length 0)) 0
+    = sumTo m (fun b => (A.getD a []).getD b 0
+        * contract F.at F.ncomp b (rows B 0 F.dims ys (List.replicate F.dims.length 0)) 0)
+  rw [hnc', hnc, contract_eq_nest]
+  simp only [contract_eq_nest]
+  rw [sumTo_congr (fun b _ => (nest_smul _ _ _ _).symm), ← nest_sumTo]
+  apply nest_congr_bounded
+  intro k hk
+  rw [hs] at hk
+  simp only [Nat.zero_mul, Nat.zero_add]
+  have := matApply_getD A m F.c k a (by rw [hdiv]; exact hk) ha
+  unfold Func.bspApplyMatrix Func.at
+  simp only [hnc]
+  exact this
+
+/-- entries of a NURBS rebuilt from de-premultiplied coefficients `C'` (trailing size `m'`) and
+weights `W` by `NurbsFunc.__init__` -/
+theorem mkNurbs_at' (dims : List Nat) (m' : Nat) (C W : List K) (k b : Nat) (hk : k < W.length) (hb : b ≤ m') :
+    (mkNurbs dims [m'] C W false).at (k * (m' + 1) + b)
+      = if b < m' then C.getD (k * m' + b) 0 * W.getD k 0 else W.getD k 0 := by
+  have hp : prod [m'] = m' := by simp [Index.prod]
+  have := mkNurbs_at dims [m'] C W false k b hk (by rw [hp]; exact hb)
+  rw [hp] at this
+  simpa using this
+
+/-- **NurbsFunc.scale, on the model's list-level constructor**: de-premultiply, multiply the
+control points by the (broadcast) factor, premultiply again: the NURBS value is the old value times
+the factor, at every node, every sdim. -/
+theorem scale_nurbs_model {X : Type} (F : Func K) (fac : List K) (m : Nat) (B : Nat → X → Info K)
+    (ys : List X) (b : Nat)
+    (hnc : F.ncomp = m + 1) (hlen : F.c.length = F.npts * (m + 1)) (hl : ys.length = F.dims.length)
+    (hfac : fac.length ∣ m) (hb : b < m)
+    (hw : ∀ I, I < F.npts → F.at (I * (m + 1) + m) ≠ 0) :
+    (F.nurbsScale fac).toSpl.gridVal B ys b / (F.nurbsScale fac).toSpl.gridVal B ys m
+      = F.toSpl.gridVal B ys b / F.toSpl.gridVal B ys m * bcast fac b := by
+  have hs := size_rows B F.dims ys (List.replicate F.dims.length 0) 0 hl (by simp)
+  obtain ⟨hWlen, hClen⟩ := coeffsWeights_lengths F m F.npts hnc hlen
+  have hm1 : F.ncomp - 1 = m := by omega
+  have hat : ∀ k b', k < F.npts → b' ≤ m → (F.nurbsScale fac).at (k * (m + 1) + b')
+      = if b' < m then F.at (k * (m + 1) + b') * bcast fac b' else F.at (k * (m + 1) + m) := by
+    intro k b' hk hb'
+    unfold Func.nurbsScale
+    simp only [hm1]
+    rw [mkNurbs_at' F.dims m _ _ k b' (by rw [hWlen]; exact hk) hb',
+      coeffsWeights_W_getD F m F.npts hnc hlen k hk]
+    by_cases hbm : b' < m
+    · rw [if_pos hbm, if_pos hbm]
+      have hidx : k * m + b' < F.coeffsWeights.1.length := by
+        rw [hClen]
+        calc k * m + b' < k * m + m := by omega
+          _ = (k + 1) * m := by ring
+          _ ≤ _ := Nat.mul_le_mul_right _ (by omega)
+      rw [getD_map_range 0 _ _ _ hidx, (coeffsWeights_getD F m F.npts hnc hlen k b' hk hbm).1,
+        bcast_mul_add fac m k b' hfac]
+      have := hw k hk
+      field_simp
+    · rw [if_neg hbm, if_neg hbm]
+  have hnc' : (F.nurbsScale fac).ncomp = m + 1 := by
+    have h1 : (F.nurbsScale fac).ncomp = prod [F.ncomp - 1] + 1 := by
+      unfold Func.nurbsScale
+      simp [Func.ncomp, mkNurbs, Index.prod]
+    rw [h1, hm1]; simp [Index.prod]
+  have hnum : (F.nurbsScale fac).toSpl.gridVal B ys b = F.toSpl.gridVal B ys b * bcast fac b := by
+    show contract (F.nurbsScale fac).at (F.nurbsScale fac).ncomp b
+        (rows B 0 F.dims ys (List.replicate F.dims.length 0)) 0
+      = contract F.at F.ncomp b (rows B 0 F.dims ys (List.replicate F.dims.length 0)) 0 * bcast fac b
+    rw [hnc', hnc, contract_eq_nest, contract_eq_nest, ← nest_mul_right]
+    apply nest_congr_bounded
+    intro k hk
+    rw [hs] at hk
+    simp only [Nat.zero_mul, Nat.zero_add]
+    rw [hat k b hk (by omega), if_pos hb]
+  have hden : (F.nurbsScale fac).toSpl.gridVal B ys m = F.toSpl.gridVal B ys m := by
+    show contract (F.nurbsScale fac).at (F.nurbsScale fac).ncomp m
+        (rows B 0 F.dims ys (List.replicate F.dims.length 0)) 0
+      = contract F.at F.ncomp m (rows B 0 F.dims ys (List.replicate F.dims.length 0)) 0
+    rw [hnc', hnc, contract_eq_nest, contract_eq_nest]
+    apply nest_congr_bounded
+    intro k hk
+    rw [hs] at hk
+    simp only [Nat.zero_mul, Nat.zero_add]
+    rw [hat k m hk (Nat.le_refl m), if_neg (Nat.lt_irrefl m)]
+  rw [hnum, hden]
+  ring
 
 
 /-! ## 4. circular arcs lie on exact circles -/
